@@ -23,6 +23,7 @@ import hashlib
 import json
 import os
 import re
+import struct
 import sys
 import traceback
 
@@ -140,6 +141,39 @@ WHITELIST = [
      "Result<IntervalDT>", "SqlDt.IntervalDT.subIntervalDt"),
     ("interval.rs", "IntervalDT", "sub_time", "IntervalDT.sub_time", "self, time: Time", "Result<IntervalDT>",
      "SqlDt.IntervalDT.subTime"),
+    # ---- the functions that go through f64 (the model's soft-float `SqlDt.F64`)
+    ("interval.rs", "IntervalYM", "mul_f64", "IntervalYM.mul_f64", "self, number: f64", "Result<IntervalYM>",
+     "SqlDt.IntervalYM.mulF64"),
+    ("interval.rs", "IntervalYM", "div_f64", "IntervalYM.div_f64", "self, number: f64", "Result<IntervalYM>",
+     "SqlDt.IntervalYM.divF64"),
+    ("interval.rs", "IntervalDT", "mul_f64", "IntervalDT.mul_f64", "self, number: f64", "Result<IntervalDT>",
+     "SqlDt.IntervalDT.mulF64"),
+    ("interval.rs", "IntervalDT", "div_f64", "IntervalDT.div_f64", "self, number: f64", "Result<IntervalDT>",
+     "SqlDt.IntervalDT.divF64"),
+    ("interval.rs", "DateTime for IntervalDT", "second", "IntervalDT.second", "self", "Option<f64>",
+     "fun v => some (SqlDt.IntervalDT.second v)"),
+    ("time.rs", "Time", "mul_f64", "Time.mul_f64", "self, number: f64", "Result<IntervalDT>",
+     "fun t x => SqlDt.IntervalDT.mulF64 t x"),
+    ("time.rs", "Time", "div_f64", "Time.div_f64", "self, number: f64", "Result<IntervalDT>",
+     "fun t x => SqlDt.IntervalDT.divF64 t x"),
+    ("time.rs", "DateTime for Time", "second", "Time.second", "self", "Option<f64>",
+     "fun t => some (SqlDt.Time.second t)"),
+    ("timestamp.rs", "Timestamp", "add_days", "Timestamp.add_days", "self, days: f64", "Result<Timestamp>",
+     "SqlDt.Timestamp.addDays"),
+    ("timestamp.rs", "Timestamp", "sub_days", "Timestamp.sub_days", "self, days: f64", "Result<Timestamp>",
+     "SqlDt.Timestamp.subDays"),
+    ("timestamp.rs", "DateTime for Timestamp", "second", "Timestamp.second", "self", "Option<f64>",
+     "fun ts => some (SqlDt.Time.second (SqlDt.Timestamp.time ts))"),
+    ("oracle.rs", "OracleDate", "add_days", "OracleDate.add_days", "self, days: f64", "Result<OracleDate>",
+     "SqlDt.OracleDate.addDays"),
+    ("oracle.rs", "OracleDate", "sub_days", "OracleDate.sub_days", "self, days: f64", "Result<OracleDate>",
+     "SqlDt.OracleDate.subDays"),
+    ("oracle.rs", "OracleDate", "sub_date", "OracleDate.sub_date", "self, date: OracleDate", "f64",
+     "SqlDt.OracleDate.subDate"),
+    ("oracle.rs", "Timestamp", "oracle_add_days", "Timestamp.oracle_add_days", "self, days: f64", "Result<OracleDate>",
+     "fun ts x => SqlDt.OracleDate.addDays (SqlDt.OracleDate.fromTimestamp ts) x"),
+    ("oracle.rs", "Timestamp", "oracle_sub_days", "Timestamp.oracle_sub_days", "self, days: f64", "Result<OracleDate>",
+     "fun ts x => SqlDt.OracleDate.subDays (SqlDt.OracleDate.fromTimestamp ts) x"),
     # ---- date.rs
     ("date.rs", "Date", "from_ymd_unchecked", "Date.from_ymd_unchecked", YMD, "Date", "SqlDt.Date.fromYmdUnchecked"),
     ("date.rs", "Date", "try_from_ymd", "Date.try_from_ymd", YMD, "Result<Date>", "SqlDt.Date.tryFromYmd"),
@@ -610,7 +644,7 @@ def load_crate(repo):
 #   ('cast', e, type) ('call', path_segments, args) ('mcall', recv, name, args) ('field', recv, name)
 #   ('index', recv, i) ('tuple', [es]) ('array', [es]) ('if', c, then_block, else_block_or_None)
 #   ('match', scrutinee, [(pat, guard, expr)]) ('block', [stmts], tail_or_None) ('return', e_or_None)
-#   ('try', e) ('macro', name) ('while', cond, block)
+#   ('try', e) ('macro', name) ('while', cond, block) ('float', literal text)
 # Statements: ('let', pat, type_or_None, init, line) ('assign', op, lhs, rhs, line) ('expr', e, line)
 #             ('const', name, type, init, line)
 # Patterns:   ('pvar', name) ('pwild',) ('ptuple', [ps]) ('plit', v) ('prange', lo, hi) ('pctor', path, [ps])
@@ -621,7 +655,7 @@ def load_crate(repo):
 BINOPS = {"||": 1, "&&": 2, "==": 3, "!=": 3, "<": 3, "<=": 3, ">": 3, ">=": 3, "|": 4, "^": 5, "&": 6,
           "<<": 7, ">>": 7, "+": 8, "-": 8, "*": 9, "/": 9, "%": 9}
 AS_PREC = 10
-PRIM_TYPES = ("i8", "i16", "i32", "i64", "isize", "u8", "u16", "u32", "u64", "usize", "bool")
+PRIM_TYPES = ("i8", "i16", "i32", "i64", "isize", "u8", "u16", "u32", "u64", "usize", "bool", "f64")
 BLOCK_LIKE = ("if", "match", "unsafe", "{", "while", "for", "loop")
 
 
@@ -942,7 +976,10 @@ class Parser(object):
             self.i += 1
             v, s = parse_int(t.text)
             return ("int", v, s)
-        if t.kind in ("float", "str", "char"):
+        if t.kind == "float":
+            self.i += 1
+            return ("float", t.text)
+        if t.kind in ("str", "char"):
             self.fail("%s literal" % t.kind)
         if t.kind == "p" and t.text == "(":
             self.i += 1
@@ -1327,6 +1364,8 @@ def lean_type(t):
         return "Int"
     if t == "bool":
         return "Bool"
+    if t == "f64":
+        return "F64"
     if t == "unit":
         return "Unit"
     if t[0] == "tuple":
@@ -1541,6 +1580,34 @@ def unwrap_some(node):
     raise Unsupported("`.unwrap()` of an Option that is not visibly `Some(..)` (it could panic)")
 
 
+def float_literal(text):
+    """A Rust float literal as a term of the model's soft-float `F64` (exact: integer-valued literals below 2^53 as
+    `F64.ofInt n`, everything else by its IEEE-754 bit pattern)."""
+    t = text.replace("_", "")
+    for suf in ("f64", "f32"):
+        if t.endswith(suf):
+            if suf == "f32":
+                raise Unsupported("f32 literal")
+            t = t[:-len(suf)]
+    v = float(t)
+    if v == int(v) and abs(v) < 2 ** 53 and not (v == 0 and str(v).startswith("-")):
+        return ("app", "F64.ofInt", [("num", int(v))])
+    bits = struct.unpack(">Q", struct.pack(">d", v))[0]
+    return ("app", "F64.ofBits", [A("0x%016x" % bits)])
+
+
+def is_float_zero(e):
+    return (e[0] == "float" and float(e[1].replace("_", "").replace("f64", "")) == 0.0)
+
+
+F64_CONSTS = {"INFINITY": ("app", "F64.inf", [A("false")]), "NEG_INFINITY": ("app", "F64.inf", [A("true")]),
+              "NAN": A("F64.nan"), "MAX": ("app", "F64.ofBits", [A("0x7fefffffffffffff")]),
+              "MIN": ("app", "F64.ofBits", [A("0xffefffffffffffff")]),
+              "EPSILON": ("app", "F64.ofBits", [A("0x3cb0000000000000")]),
+              "MIN_POSITIVE": ("app", "F64.ofBits", [A("0x0010000000000000")])}
+F64_TO_INT = {"i64": "F64.toI64", "i32": "F64.toI32", "u32": "F64.toU32"}
+
+
 def eval_prop(node):
     """Truth value of a closed condition (numerals only), else None."""
     k = node[0]
@@ -1671,6 +1738,12 @@ class Translator(object):
         """`node as t` where node has type s."""
         if s == t:
             return node, t
+        if t == "f64" and is_intlike(s):
+            return ("app", "F64.ofInt", [node]), "f64"      # `n as f64`: round to nearest even (exact below 2^53)
+        if s == "f64":
+            if t in F64_TO_INT:
+                return ("app", F64_TO_INT[t], [node]), t    # saturating, NaN -> 0
+            raise Unsupported("cast from f64 to %s (the model's soft-float has `as i64/i32/u32` only)" % type_str(t))
         if s == "bool" and is_int(t):
             return ("app", "boolToInt", [node]), t
         if isinstance(s, tuple) and s[0] == "enum" and is_int(t):
@@ -1700,6 +1773,13 @@ class Translator(object):
             finally:
                 self.try_binds = saved
             return ("bin", "∧" if e[1] == "&&" else "∨", l, r)
+        if k == "binary" and e[1] in ("==", "!=") and (is_float_zero(e[2]) or is_float_zero(e[3])):
+            other = e[3] if is_float_zero(e[2]) else e[2]
+            n, t = self.tr_expr(other, env, "f64")
+            if t != "f64":
+                raise Unsupported("comparison of %s with 0.0" % type_str(t))
+            z = ("bin", "=", ("app", "F64.isZero", [n]), A("true"))
+            return z if e[1] == "==" else ("not", z)
         if k == "binary" and e[1] in CMP_OPS:
             ln, lt = self.tr_expr(e[2], env, None)
             rn, rt = self.tr_expr(e[3], env, lt if is_int(lt) else None)
@@ -1711,6 +1791,8 @@ class Translator(object):
                 pass
             elif lt == rt and isinstance(lt, tuple) and lt[0] == "nt":
                 pass        # derived PartialEq/PartialOrd of a one-field struct = comparison of the field
+            elif "f64" in (lt, rt):
+                raise Unsupported("float comparison `%s` (the model's soft-float has only `== 0.0`)" % e[1])
             else:
                 raise Unsupported("comparison of %s with %s" % (type_str(lt), type_str(rt)))
             return ("bin", CMP_OPS[e[1]], ln, rn)
@@ -1746,12 +1828,16 @@ class Translator(object):
             return ("num", e[1]), (want if is_int(want) else "lit")
         if k == "bool":
             return A("true" if e[1] else "false"), "bool"
+        if k == "float":
+            return float_literal(e[1]), "f64"
         if k == "path":
             return self.tr_path(e[1], env, want)
         if k == "unary":     # '-'
             n, t = self.tr_expr(e[2], env, want)
             if isinstance(t, tuple) and t[0] == "nt":
                 return self.method_call(n, t, "neg", [], env)
+            if t == "f64":
+                return ("app", "F64.neg", [n]), "f64"
             if not is_intlike(t):
                 raise Unsupported("unary minus on %s" % type_str(t))
             if is_int(t) and not is_signed(t):
@@ -1829,7 +1915,17 @@ class Translator(object):
                     and e[1][1][0] in env.get("$l", {}):
                 return ("num", len(env["$l"][e[1][1][0]])), "usize"
             if e[2] == "into" and not e[3]:
-                raise Unsupported("`.into()` (target type is inferred)")
+                # `.into()`: only where the expected type is known (`Ok(x.into())`, an annotated `let`, an argument)
+                # and a whitelisted `From` impl exists
+                if not (isinstance(want, tuple) and want[0] == "nt"):
+                    raise Unsupported("`.into()` whose target type is not evident from the context")
+                a = self.tr_expr(e[1], env, None)
+                if a[1] == want:
+                    return a
+                ent = self.w.wl.get(("From<%s> for %s" % (type_str(a[1]), want[1]), "from"))
+                if ent is None:
+                    raise Unsupported("conversion `%s -> %s` is not whitelisted" % (type_str(a[1]), want[1]))
+                return self.call_entry(ent, [a])
             n, t = self.tr_expr(e[1], env, None)
             return self.method_call(n, t, e[2], e[3], env)
         if k == "try":
@@ -1869,6 +1965,10 @@ class Translator(object):
         head, name = segs
         if head in INT_RANGE and name in ("MIN", "MAX"):
             return ("num", INT_RANGE[head][0 if name == "MIN" else 1]), head
+        if head == "f64":
+            if name in F64_CONSTS:
+                return F64_CONSTS[name], "f64"
+            raise Unsupported("constant f64::%s" % name)
         tn = self.type_name(head)
         if tn is not None and tn in w.crate.enums:
             if name in w.crate.enums[tn]:
@@ -1930,6 +2030,10 @@ class Translator(object):
         rn, rt = self.tr_expr(e[3], env, lt if is_int(lt) else wi)
         if lt == "lit" and is_int(rt):
             ln, lt = self.tr_expr(e[2], env, rt)
+        if lt == "f64" and rt == "f64":
+            if op in ("*", "/"):
+                return ("app", "F64.mul" if op == "*" else "F64.div", [ln, rn]), "f64"
+            raise Unsupported("float `%s` (the model's soft-float has `*`, `/` and unary `-` only)" % op)
         if not (is_intlike(lt) and is_intlike(rt)):
             raise Unsupported("`%s` on %s and %s" % (op, type_str(lt), type_str(rt)))
         t = self.unify_int(lt, rt, "`%s`" % op)
@@ -2119,6 +2223,14 @@ class Translator(object):
             if name in ("is_negative", "is_positive"):
                 raise Unsupported("`.%s()` on unsigned %s" % (name, t))
             raise Unsupported("integer method `.%s()`" % name)
+        if t == "f64":
+            if not arg_exprs and name == "round":
+                return ("app", "F64.roundHalfAway", [n]), "f64"
+            if not arg_exprs and name == "is_nan":
+                return ("app", "F64.isNan", [n]), "bool"
+            if not arg_exprs and name == "is_infinite":
+                return ("app", "F64.isInfinite", [n]), "bool"
+            raise Unsupported("float method `.%s()` (the model's soft-float has `round`, `is_nan`, `is_infinite` only)" % name)
         if isinstance(t, tuple) and t[0] == "array" and name == "len" and not arg_exprs and n[0] == "list":
             return ("num", len(n[1])), "usize"
         if isinstance(t, tuple) and t[0] == "option" and name == "unwrap" and not arg_exprs and t[1] is not None:
@@ -2819,6 +2931,9 @@ def build_whitelist(world):
         world.wl[(impl, fn)] = ent
         if self_ty is not None and " for " not in impl:
             world.wl_by_type[(self_ty, fn)] = ent
+    for ent in entries:       # whitelisted trait methods (`DateTime::second`): callable as methods when unambiguous
+        if ent["self_ty"] is not None and " for " in ent["impl"] and not ent["impl"].startswith(("From<", "Ord for", "PartialOrd", "PartialEq")):
+            world.wl_by_type.setdefault((ent["self_ty"], ent["fn"]), ent)
     for (fname, name, model) in CONST_WHITELIST:
         ent = {"kind": "const", "file": fname, "impl": None, "fn": name, "lean": name, "params_t": [],
                "ret_t": None, "model": model, "key": "%s::%s" % (fname, name), "self_ty": None}
@@ -3031,6 +3146,7 @@ def main(argv=None):
         "-/",
         "import SqlDt.Generated",
         "import SqlDt.Model.Basic",
+        "import SqlDt.Model.F64     -- the model's soft-float (core Lean, imports Model.Basic only)",
     ]
     if stubs:
         header.append("import SqlDt.Model.Types   -- only because of the UNTRANSLATED aliases below")
